@@ -4,10 +4,21 @@
   (`enc.open`, `sc.open`, `sig.verify`, `sig.verifydetached`), now a Model
   definition so that theorems can be stated about it.
 
-    bytes ──Wire.split*──▶ ok (header read, packet stream)            (spec-shaped reader)
-          └─unmodelled──▶ Codec.split* ──▶ ok (header read, packet stream)   (go-codec's typed decoding)
-                                         └─▶ error: the model does not claim to know (reason: Wire's)
+    bytes ──Codec.split*──▶ ok (header read, packet stream)            (go-codec's TYPED decoding, in go-codec's order)
+          └─unmodelled──▶ Wire.split* ──▶ ok (header read, packet stream)   (spec-shaped reader: generic parse + typed views)
+                                        └─▶ error: the model does not claim to know (reason: Codec's)
     (header read, packet stream) ──Decrypt.openStream / Signcrypt.openStream / Sign.verifyStream / Sign.verifyDetached──▶ result
+
+  `Codec` is the PRIMARY reader (repair R1).  Up to ext-h the order was the other
+  way round, and `Wire` — a generic MessagePack parse followed by typed views that
+  drop surplus elements — answered `.ok` on inputs go-codec refuses (a reserved
+  extra element nested beyond the decoder's depth budget: Go `max depth exceeded`)
+  and, parsing generically, let a truncation further right hide a type error
+  further left (Go: decode error; `Wire`: clean end).  `Codec` reads the bytes
+  left to right the way go-codec's typed decoder does and gets both right; `Wire`
+  is now consulted only for the two documented shapes (and fuel) `Codec` calls
+  unmodelled.  On canonical messages — all genuine sender output included — the two
+  agree (`C09_bridge_*`), so the older `Wire`-based round-trip theorems transfer.
 
   `Front.read*` are total functions `Bytes → Except String …`; `.error w` is the
   driver's `unmodelled w` answer (the correspondence then takes the
@@ -25,42 +36,108 @@ import Saltpack.Model.Sign
 namespace Saltpack.Front
 open Saltpack
 
-/-- `Wire` first; `Codec` (evaluated only then) for what `Wire` calls unmodelled;
-    when neither knows, the reason `Wire` gave -/
-@[inline] def orCodec {α : Type} (w : Wire.Front α) (c : Unit → Except String α) : Except String α :=
-  match w with
+/-- `Codec` first; `Wire` (evaluated only then) for what `Codec` calls unmodelled;
+    when neither knows, the reason `Codec` gave -/
+@[inline] def orWire {α : Type} (c : Except String α) (w : Unit → Wire.Front α) : Except String α :=
+  match c with
   | .ok x => .ok x
-  | .unmodelled why =>
-    match c () with
+  | .error why =>
+    match w () with
     | .ok x => .ok x
-    | .error _ => .error why
+    | .unmodelled _ => .error why
+
+/-! ### which read consults the end of the stream
+
+  `Codec.blocks` (the mirror of the lister hook) stops at the first position where
+  a TYPED packet read fails.  A receiver consults that position in one of two ways:
+  it expects a further packet — a typed read, whose error `Codec.blocks` reports as
+  the tail — or, after a packet that is final, `assertEndOfStream` makes a GENERIC
+  read (`Read(&x)`, `x interface{}`): `io.EOF` = clean end, an object = trailing
+  garbage, anything else that error.  The two differ in exactly one case: an object
+  the typed decoder refuses (wrong type seen first) that is ALSO truncated — typed
+  read: decode error; generic read: `io.EOF`, a clean end (e.g. `c4 05 01` behind a
+  complete message: Go accepts the message).  Which of the two reads happens is
+  decided by the last packet decoded before the stop (`blockFinal`, the receivers'
+  own test), so the front end can hand over the right tail: -/
+
+/-- the typed reads stop at an object the typed decoder refuses whose generic read
+    runs into the end of the input (same walk as `Codec.blocks`) -/
+def truncatedStop {β : Type} (dec : Codec.Dec β) : Nat → Bytes → Bool
+  | 0, _ => false
+  | fuel + 1, b =>
+    match dec b with
+    | .ok (_, rest) => truncatedStop dec fuel rest
+    | .error (.err _) =>
+      (match Codec.generic b with
+       | .error .eof => true
+       | _ => false)
+    | .error _ => false
+
+/-- the last packet decoded is a final one: a receiver that gets this far reads the
+    end of the stream through `assertEndOfStream` -/
+def lastFinal {β : Type} (fin : β → Bool) (items : List (Option β)) : Bool :=
+  match items.getLast? with
+  | some (some b) => fin b
+  | _ => false
+
+/-- `Codec.split*`'s answer with the tail a receiver will see: behind a final packet
+    a truncated object the typed decoder refuses is a clean end (`assertEndOfStream`
+    reads generically) -/
+def settle {η β : Type} (decH : Codec.Dec η) (decB : η → Option (Codec.Dec β)) (fin : η → β → Bool) (msg : Bytes)
+    (c : Except String (HeaderRead η × PStream β)) : Except String (HeaderRead η × PStream β) :=
+  match c with
+  | .ok (.ok hb h, ps) =>
+    if ps.tail = .err .decodeError ∧ lastFinal (fin h) ps.items = true then
+      match Codec.readHeader decH msg, decB h with
+      | .ok (_, rest), some d =>
+        if truncatedStop d (rest.length + 1) rest then .ok (.ok hb h, ⟨ps.items, .eof⟩) else c
+      | _, _ => c
+    else c
+  | _ => c
 
 /-- what `NewDecryptStream`'s reads make of `msg` -/
 def readEnc (msg : Bytes) : Except String (HeaderRead EncHeader × PStream EncBlock) :=
-  orCodec (Wire.splitEnc msg) (fun _ => Codec.splitEnc msg)
+  orWire
+    (settle Codec.decEncHeader
+      (fun h => if Codec.majorOK h.version.major then some (Codec.decEncBlock h.version.major) else none)
+      (fun h b => Decrypt.blockFinal h.version b) msg (Codec.splitEnc msg))
+    (fun _ => Wire.splitEnc msg)
 
 /-- what `NewSigncryptOpenStream`'s reads make of `msg` -/
 def readSigncrypt (msg : Bytes) : Except String (HeaderRead EncHeader × PStream SigncryptBlock) :=
-  orCodec (Wire.splitSigncrypt msg) (fun _ => Codec.splitSigncrypt msg)
+  orWire
+    (settle Codec.decEncHeader (fun _ => some Codec.decSigncryptBlock) (fun _ b => b.final) msg (Codec.splitSigncrypt msg))
+    (fun _ => Wire.splitSigncrypt msg)
 
 /-- what `NewVerifyStream`'s reads make of `msg` -/
 def readSig (msg : Bytes) : Except String (HeaderRead SigHeader × PStream SigBlock) :=
-  orCodec (Wire.splitSig msg) (fun _ => Codec.splitSig msg)
+  orWire
+    (settle Codec.decSigHeader
+      (fun h => if Codec.majorOK h.version.major then some (Codec.decSigBlock h.version.major) else none)
+      (fun h b => Sign.blockFinal h.version b) msg (Codec.splitSig msg))
+    (fun _ => Wire.splitSig msg)
 
-/-- the detached signature object as `VerifyDetachedReader` sees it: a clean end
-    of input is `io.EOF` turned into `ErrUnexpectedEOF`-class, anything else a
-    decode error -/
+/-- the detached signature object as `VerifyDetachedReader` sees it.  A clean end
+    of input: the code returns the decoder's RAW `io.EOF` here (`return nil, err` —
+    no conversion to `io.ErrUnexpectedEOF`, unlike `getNextChunk` of the streaming
+    receivers).  `Err` has one constructor for "the input ended" (`unexpectedEOF`),
+    which stands for both; the harness's classes `eof` / `unexpected-eof` are not
+    among the classes the correspondence compares by name.  Anything else: a
+    decode error. -/
 def detSig : Codec.DetSig → Sign.SigRead
   | .sig s => .sig s
   | .eof => .none .unexpectedEOF
   | .err => .none .decodeError
 
+/-- `Codec.splitDetached` with the signature object in the receiver's type -/
+def codecDetached (sigMsg : Bytes) : Except String (HeaderRead SigHeader × Sign.SigRead) :=
+  match Codec.splitDetached sigMsg with
+  | .ok (hr, d) => .ok (hr, detSig d)
+  | .error w => .error w
+
 /-- what `VerifyDetachedReader`'s reads make of the signature message -/
 def readDetached (sigMsg : Bytes) : Except String (HeaderRead SigHeader × Sign.SigRead) :=
-  orCodec (Wire.splitDetached sigMsg)
-    (fun _ => match Codec.splitDetached sigMsg with
-      | .ok (hr, d) => .ok (hr, detSig d)
-      | .error w => .error w)
+  orWire (codecDetached sigMsg) (fun _ => Wire.splitDetached sigMsg)
 
 end Saltpack.Front
 
